@@ -1,6 +1,6 @@
 (* Properties/C11.v — pinned statements only. *)
 From Boreal Require Import Base.Prelude Base.ListX Base.Bytes Model.Literals Model.AcScan Model.Memory
-  Spec.FragSpec Model.FragCase Proofs.AcScanDecomp Proofs.LimitsProofs Proofs.FragProofs.
+  Spec.FragSpec Model.FragCase Proofs.AcScanDecomp Proofs.LimitsProofs Proofs.FragProofs Proofs.FragMemory.
 
 (* the union: for every matcher kind and every limit, the matches of a string after a fragmented scan
    are the concatenation, in region order, of scans of each fetched region started from an empty list
@@ -52,12 +52,75 @@ Theorem C11_read_integer_sound :
               /\ bs = slice (start - f_start r) (end_ - f_start r) (f_mem r).
 Proof. exact get_contiguous_sound. Qed.
 
-(* Full statements not proved (checked by the correspondence run against Spec/FragSpec.v):
-   read/range completeness for ascending disjoint layouts and `find_at`/`find_in` = membership on
-   ascending keys. *)
-Definition C11_read_integer_statement : Prop :=
-  forall regions a n, ascending_regions 0 regions = true ->
-    option_map le_value (spec_read true regions a n) = read_uint true regions a n.
+(* integer reads, completeness: on a layout delivered in ascending address order a read succeeds
+   exactly when one fetched region covers the whole span (Spec/FragSpec.v spec_read), same bytes *)
+Theorem C11_read_integer :
+  forall regions a n, ascending_regions 0 regions = true -> a + n <= umax ->
+    read_uint true regions a n = option_map le_value (spec_read true regions a n).
+Proof. exact read_uint_complete. Qed.
+
+Theorem C11_get_contiguous :
+  forall regions q a n, ascending_regions q regions = true ->
+    get_contiguous_loop regions a (a + n) = spec_read true regions a n.
+Proof. exact get_contiguous_complete. Qed.
+
+(* ranges, completeness.  `adjacent q run`: the regions of run follow one another from address q, each
+   fetched in full (fetched length = described length > 0); `below s pre`: the regions before the run
+   end at or below s.  [s, e) inside the run: exactly its bytes. *)
+Theorem C11_on_range_covered :
+  forall pre r1 rest post q s e,
+    below s pre -> adjacent q (r1 :: rest) ->
+    q <= s < q + nlen (f_mem r1) -> s <= e -> e <= q + nlen (flat (r1 :: rest)) ->
+    q + nlen (flat (r1 :: rest)) <= umax ->
+    on_range true (pre ++ (r1 :: rest) ++ post) s e = Some (slice (s - q) (e - q) (flat (r1 :: rest))).
+Proof. exact on_range_covered. Qed.
+
+(* the range runs past the last region: the bytes up to its end *)
+Theorem C11_on_range_past_last :
+  forall pre r1 rest q s e,
+    below s pre -> adjacent q (r1 :: rest) ->
+    q <= s < q + nlen (f_mem r1) -> q + nlen (flat (r1 :: rest)) < e ->
+    q + nlen (flat (r1 :: rest)) <= umax ->
+    on_range true (pre ++ (r1 :: rest)) s e
+    = Some (slice (s - q) (nlen (flat (r1 :: rest))) (flat (r1 :: rest))).
+Proof. exact on_range_past_last. Qed.
+
+(* a gap before a further region, or a further adjacent region whose fetch fails: undefined *)
+Theorem C11_on_range_gap_or_failed :
+  forall pre r1 rest p post q s e,
+    below s pre -> adjacent q (r1 :: rest) ->
+    q <= s < q + nlen (f_mem r1) -> q + nlen (flat (r1 :: rest)) < e ->
+    q + nlen (flat (r1 :: rest)) <= umax ->
+    f_start p <> q + nlen (flat (r1 :: rest))
+    \/ (f_start p = q + nlen (flat (r1 :: rest)) /\ 0 < f_described p /\ f_fail p = true) ->
+    on_range true (pre ++ (r1 :: rest) ++ p :: post) s e = None.
+Proof. exact on_range_gap_or_failed. Qed.
+
+(* the hypotheses are satisfiable: regions [0,5) [5,7) adjacent, then a gap, [100,104) *)
+Definition ex_regions : list fregion :=
+  [ {| f_start := 0; f_mem := [97;98;99;100;101]; f_fail := false; f_described := 5 |};
+    {| f_start := 5; f_mem := [1;2]; f_fail := false; f_described := 2 |};
+    {| f_start := 100; f_mem := [97;98;3;4]; f_fail := false; f_described := 4 |} ].
+Example C11_read_example :
+  ascending_regions 0 ex_regions = true
+  /\ read_uint true ex_regions 101 1 = Some 98      (* inside one region *)
+  /\ read_uint true ex_regions 4 2 = None.          (* straddles two adjacent regions *)
+Proof. vm_compute. repeat split. Qed.
+Example C11_run_hypotheses :       (* the first two regions form a run in the sense of C11_on_range_covered *)
+  adjacent 0 (firstn 2 ex_regions) /\ nlen (flat (firstn 2 ex_regions)) = 7.
+Proof. vm_compute. repeat split. Qed.
+Example C11_on_range_example :
+  on_range true ex_regions 2 7 = Some [99;100;101;1;2]     (* across the adjacent pair *)
+  /\ on_range true ex_regions 2 8 = None                   (* a gap before the third region *)
+  /\ on_range true ex_regions 102 200 = Some [3;4]         (* past the last region *)
+  /\ spec_range true ex_regions 2 7 = Some [99;100;101;1;2]
+  /\ spec_range true ex_regions 2 8 = None
+  /\ spec_range true ex_regions 102 200 = Some [3;4].
+Proof. vm_compute. repeat split. Qed.
+
+(* Still checked by the correspondence run only (kept as definitions): equality of `on_range` with the
+   address-walk specification `spec_range` on every ascending layout (short fetches, described length
+   different from the fetched one, empty regions), and `find_at` = membership on ascending keys. *)
 Definition C11_on_range_statement : Prop :=
   forall regions s e, ascending_regions 0 regions = true ->
     on_range true regions s e = spec_range true regions s e.
@@ -92,4 +155,9 @@ Print Assumptions C11_single_zero.
 Print Assumptions C11_filesize.
 Print Assumptions C11_no_refetch.
 Print Assumptions C11_read_integer_sound.
+Print Assumptions C11_read_integer.
+Print Assumptions C11_get_contiguous.
+Print Assumptions C11_on_range_covered.
+Print Assumptions C11_on_range_past_last.
+Print Assumptions C11_on_range_gap_or_failed.
 Print Assumptions C11_region_order_refuted.
